@@ -15,7 +15,8 @@ TECHNIQUE = ("property-based testing (Hypothesis) with a whole-IR validity predi
              "documented zero-sized blocks, protobuf round trip) and exhaustive fault injection: for every k the k-th "
              "patch callback raises")
 RULE = ("cases as in C01 plus aux tables on generated nodes (SCCs, profile, encodings, types, elfDynamicInit/Fini, "
-        "peSafeExceptionHandlers, elfSymbolInfo, peExportedSymbols, symbolForwarding, sectionProperties). Each case is "
+        "peSafeExceptionHandlers, elfSymbolInfo, peExportedSymbols, symbolForwarding, sectionProperties; on x86 also an "
+        "alignment table whose entries hold in the input) and .balign directives inside patches. Each case is "
         "run once without faults and then once per k in 1..n (n = number of patch callbacks the fault-free run made) "
         "with a private exception raised by the k-th get_asm call, plus once with an AsmSyntaxError patch and once with "
         "an undefined-symbol patch. Every resulting IR goes through validate_ir. Non-trivial = (success) the case "
